@@ -1283,15 +1283,15 @@ def extra_evidence() -> dict:
 
 
 SUBCHECKS = [
-    Sub('crash', execute_crash, strategy=scenario_strategy, quick=640, thorough=16000, floor=100, quick_shards=8,
+    Sub('crash', execute_crash, strategy=scenario_strategy, quick=640, thorough=12000, floor=100, quick_shards=8,
         must_hit=('text', 'bytes', 'old_present', 'old_absent', 'nested', 'stale', 'repeat', 'relative', 'big_write',
                   'seek', 'pt:crash', 'pt:crash_window', 'pt:fork_kill')),
-    Sub('fault', execute_fault, strategy=scenario_strategy, quick=480, thorough=24000, floor=80, quick_shards=8,
+    Sub('fault', execute_fault, strategy=scenario_strategy, quick=480, thorough=16000, floor=80, quick_shards=8,
         must_hit=('text', 'bytes', 'old_present', 'old_absent', 'nested', 'stale', 'repeat',
                   'pt:fault:open:ENOSPC', 'pt:fault:write:partial', 'pt:fault:write:EIO', 'pt:fault:close:ENOSPC',
                   'pt:fault:close:EIO', 'pt:fault:replace:EXDEV', 'pt:fault:replace:EACCES', 'pt:fault:mkdir:EACCES',
                   'pt:fault:flush:ENOSPC', 'pt:fault:seek:EIO', 'pt:fault_window')),
-    Sub('body', execute_body, strategy=scenario_strategy, quick=640, thorough=24000, floor=100, quick_shards=8,
+    Sub('body', execute_body, strategy=scenario_strategy, quick=640, thorough=16000, floor=100, quick_shards=8,
         must_hit=('text', 'bytes', 'old_present', 'old_absent', 'nested', 'stale', 'repeat',
                   'pt:body:pre', 'pt:body:mid', 'pt:body:call')),
     Sub('bsp_crash', execute_crash, enumerate=bsp_enum, floor=1, enum_counts_distinct=True,
@@ -1302,7 +1302,7 @@ SUBCHECKS = [
         must_hit=('bsp', 'pt:body:pre', 'pt:body:mid')),
     Sub('two_enum', execute_two, enumerate=two_enum, floor=1500, quick_shards=8,
         must_hit=('schedule_valid', 'temp_name_contention', 'one_writer_fails')),
-    Sub('two_random', execute_two, strategy=two_strategy, quick=3200, thorough=64000, floor=500, quick_shards=8,
+    Sub('two_random', execute_two, strategy=two_strategy, quick=3200, thorough=50000, floor=500, quick_shards=8,
         must_hit=('overlap', 'temp_name_contention', 'one_writer_fails', 'nested')),
 ]
 
@@ -1318,6 +1318,7 @@ LEVEL_TEXT = (
 LEVEL_NOTE = (
     'Trusts the harness FaultFS (Python-level proxy over the real buffered file objects; operations = Python-level '
     'open/write/flush/seek/truncate/close and os-level replace/rename/unlink/mkdir), the SIGKILL model (validated '
-    'against real forked kills), single-fault semantics and Linux file-system behaviour; no power-loss/fsync model.')
+    'against real forked kills), single-fault semantics and Linux file-system behaviour (scratch directories are '
+    'tempfile.mkdtemp() per case on /dev/shm when present, else the default temp dir); no power-loss/fsync model.')
 TECHNIQUE = ('fault injection with exhaustive crash/fault-point enumeration per trace (Hypothesis-generated scenarios), '
              'fork-kill validation, exhaustive/randomised two-thread schedule enumeration under a token-passing scheduler')
